@@ -1,3 +1,4 @@
+mod dbx;
 mod engine;
 mod jsonx;
 mod model;
@@ -18,9 +19,18 @@ macro_rules! dispatch {
             "C01" => $f(props::c01::C01, $($arg),*),
             "C02" => $f(props::c02::C02, $($arg),*),
             "C03" => $f(props::c03::C03, $($arg),*),
+            "C04" => $f(props::c04::C04, $($arg),*),
+            "C05" => $f(props::c05::C05, $($arg),*),
             "C06" => $f(props::c06::C06, $($arg),*),
             "C07" => $f(props::c07::C07, $($arg),*),
             "C08" => $f(props::c08::C08, $($arg),*),
+            "C09" => $f(props::c09::C09, $($arg),*),
+            "C10" => $f(props::c10::C10, $($arg),*),
+            "C11" => $f(props::c11::C11, $($arg),*),
+            "C12" => $f(props::c12::C12, $($arg),*),
+            "C16" => $f(props::c16::C16, $($arg),*),
+            "C17" => $f(props::c17::C17, $($arg),*),
+            "C18" => $f(props::c18::C18, $($arg),*),
             "C19" => $f(props::c19::C19, $($arg),*),
             "C20" => $f(props::c20::C20, $($arg),*),
             _ => { eprintln!("unknown property {}", $id); std::process::exit(2) }
